@@ -7,6 +7,7 @@ let op_of (x : Sx.t) : op =
   | "wh", [c] -> OWriteHeader (z_of_int (Sx.int_of c))
   | "w", [bs; acc] -> OWrite (str bs, n_of_int (Sx.int_of acc))
   | "ws", [bs; acc] -> OWrite (str bs, n_of_int (Sx.int_of acc))   (* io.WriteString is a Write *)
+  | "cp", [bs; acc] -> OWrite (str bs, n_of_int (Sx.int_of acc))   (* io.Copy of a short reader is one Write *)
   | "fl", [] -> OFlush
   | "bf", [id] -> OBefore (nat_of_int (Sx.int_of id), false)
   | "bfp", [id] -> OBefore (nat_of_int (Sx.int_of id), true)
